@@ -16,6 +16,7 @@ import (
 
 // C10Monitor: reporting power equals the bonded stake of active selectors, counted once (DESIGN.md §4 C10).
 type C10Monitor struct {
+	removedAt map[string]time.Time // selector -> time of the last accepted RemoveSelector naming it
 	BaseMonitor
 	st        *Stats
 	reporters map[string]reportertypes.OracleReporter // shadow before the next tx
@@ -231,7 +232,16 @@ func (m *C10Monitor) AfterTx(c *Chain, ctx sdk.Context, tx sdk.Tx, ok bool) {
 						if now.Sub(u.at) >= unbonding {
 							continue // the statement only covers windows shorter than the unbonding period
 						}
-						c.Violate("C10", "c10", "same-stake-counted-for-two-reporters-in-one-round", map[string]interface{}{"first": u.reporter, "second": x.Creator, "apart": now.Sub(u.at).String()})
+						// how did the stake get from the first reporter to the second? A switch is what the lock period is for; a
+						// selector that a third party REMOVED (RemoveSelector) and that then joined or became a reporter again
+						// carries no lock at all (recorded defect F39) - the two are told apart in the signature
+						sig := "same-stake-counted-for-two-reporters-in-one-round"
+						if len(k) >= 20 {
+							if t, was := m.removedAt[k[:20]]; was && t.After(u.at) {
+								sig += ":the-selector-was-removed-by-a-third-party-in-between"
+							}
+						}
+						c.Violate("C10", "c10", sig, map[string]interface{}{"first": u.reporter, "second": x.Creator, "apart": now.Sub(u.at).String(), "selector": sdk.AccAddress([]byte(k[:minInt(20, len(k))])).String()})
 						break
 					}
 				}
@@ -241,6 +251,13 @@ func (m *C10Monitor) AfterTx(c *Chain, ctx sdk.Context, tx sdk.Tx, ok bool) {
 					}
 				}
 				m.st.Count("c10.double-count.evals")
+			}
+		case *reportertypes.MsgRemoveSelector:
+			if m.removedAt == nil {
+				m.removedAt = map[string]time.Time{}
+			}
+			if sa, err := sdk.AccAddressFromBech32(x.SelectorAddress); err == nil {
+				m.removedAt[string(sa.Bytes())] = now
 			}
 		case *reportertypes.MsgSelectReporter, *reportertypes.MsgSwitchReporter:
 			var selAddr, repAddr string
